@@ -1,22 +1,19 @@
 #!/bin/bash
-# After tools/incoming_matrix.sh: copies up to two shrunk killers (JSON replay files) per seeded change into
-# replays/regress/<prop>/ so that every quick run replays them first. Only files that pass on the clean tree are kept.
+# After tools/seeded_matrix.sh: copies the shrunk killer of every seeded change (seeded/<id>/killer.json, a JSON replay file)
+# into replays/regress/<prop of the check that produced it>/ so that every quick run replays it first.
+# Only files that are silent on the clean tree are kept. C19 killers are skipped (a replay costs a rustc run).
 cd /verif
-for log in work/matrix.C*-*.log; do case "$log" in *matrix.C19-*) continue;; esac
-  id=$(basename $log .log); id=${id#matrix.}; c=${id%-*}
-  k=0
-  grep '^VIOLATION' $log | sed 's/.*replay=//' | while read f; do
-    case "$f" in *.json) ;; *) continue;; esac
-    [ -f "$f" ] || continue
-    k=$((k+1)); [ $k -le 1 ] || break
-    mkdir -p replays/regress/$c
-    cp "$f" replays/regress/$c/seeded-$id-$k.json
-  done
-done
-# keep only those that are silent on the clean tree
 git -C /repo diff --quiet || { echo "/repo has local changes"; exit 2; }
+for k in seeded/C*-*/killer.json; do
+  id=$(basename $(dirname $k))
+  c=$(python3 -c "import json;print(json.load(open('$k')).get('property',''))")
+  [ -n "$c" ] || continue
+  [ "$c" = "C19" ] && continue
+  mkdir -p replays/regress/$c
+  cp $k replays/regress/$c/seeded-$id.json
+done
 for f in replays/regress/C*/seeded-*.json; do
   c=$(basename $(dirname $f))
   if ! ./check $c --replay $f >/dev/null 2>&1; then echo "dropping $f (not silent on the clean tree)"; rm -f $f; fi
 done
-ls replays/regress/*/ | wc -l
+find replays/regress -name '*.json' | wc -l
